@@ -216,6 +216,43 @@ class TrackedArray(np.ndarray):
         # Match numpy's behavior and return a numpy dtype scalar
         return out_arr[()]
 
+    def __array_ufunc__(self, ufunc, method, *inputs, out=None, **kwargs):
+        """
+        Mark every tracked array a ufunc writes into as modified:
+        the `out` arguments and the target of `ufunc.at`.
+        """
+        if out is not None:
+            for item in out:
+                if isinstance(item, TrackedArray):
+                    item._dirty_hash = True
+            # run on plain views of the same memory
+            kwargs["out"] = tuple(
+                o.view(np.ndarray) if isinstance(o, TrackedArray) else o for o in out
+            )
+        if method == "at" and isinstance(inputs[0], TrackedArray):
+            inputs[0]._dirty_hash = True
+        # evaluate using the plain `ndarray` implementation
+        result = getattr(ufunc, method)(
+            *(i.view(np.ndarray) if isinstance(i, TrackedArray) else i for i in inputs),
+            **kwargs,
+        )
+        if method == "at":
+            return None
+
+        def wrap(value, target):
+            # passed output arrays are returned as they were passed
+            if target is not None:
+                return target
+            # arrays are returned as our subclass and 0D as scalars
+            if isinstance(value, np.ndarray) and value.ndim > 0:
+                return value.view(type(self))
+            return value
+
+        if isinstance(result, tuple):
+            targets = out if out is not None else (None,) * len(result)
+            return tuple(wrap(r, t) for r, t in zip(result, targets))
+        return wrap(result, None if out is None else out[0])
+
     @property
     def mutable(self):
         return self.flags["WRITEABLE"]
